@@ -118,6 +118,15 @@ let run_case (line : Stdlib.String.t) =
       | Ok e -> out_str "S"; out_zlist e.line; out_z e.cpos; out_z e.accept_err; out_zlist st.l_keys.k_buf
       | Panic site -> out_str "PANIC"; out_z site
       | OutOfFuel -> out_str "OUTOFFUEL")
+   | "c15" ->
+     let gs = next_list (fun t -> let al = next_bool t in let mx = next_z t in let my = next_z t in let nc = next_z t in
+                          let rows = next_zlist t in fresh_group rows al mx my nc) t in
+     let dirs = next_zlist t in
+     List.iter (fun r -> match r with
+         | Ok (Some ((g, y), x)) -> out_str "S"; out_z g; out_z y; out_z x
+         | Ok None -> out_str "N"
+         | Panic site -> out_str "PANIC"; out_z site
+         | OutOfFuel -> out_str "OUTOFFUEL") (run_selects { e_groups = gs; e_cur = z_of_int (-1) } dirs)
    | "edcmds" -> out_list out_zlist modelled_commands
    | "quote" -> let c = next_z t in out_zlist (quote c)
    | _ -> out_str ("UNKNOWN-OP " ^ op));
